@@ -300,8 +300,23 @@ class _CaseAlarm(BaseException):
 CASE_ALARM = int(os.environ.get("VERIF_CASE_ALARM", "120"))
 
 
+CASE_RSS = int(os.environ.get("VERIF_CASE_RSS_MB", "6000"))     # a case whose process grows beyond this is stopped
+_CASE_T0 = [0.0]
+
+
+def _rss_mb():
+    try:
+        with open("/proc/self/statm") as f:
+            return int(f.read().split()[1]) * (os.sysconf("SC_PAGE_SIZE") // 1024) // 1024
+    except Exception:
+        return 0
+
+
 def _alarm(signum, frame):
-    raise _CaseAlarm()
+    # periodic (every 10 s while a case runs): stop the case when it has run for CASE_ALARM seconds or the worker
+    # has grown beyond CASE_RSS megabytes (a runaway allocation is non-termination seen earlier)
+    if time.time() - _CASE_T0[0] >= CASE_ALARM or _rss_mb() > CASE_RSS:
+        raise _CaseAlarm()
 
 
 def _do_case(args):
@@ -311,7 +326,10 @@ def _do_case(args):
     armed = False
     try:
         signal.signal(signal.SIGALRM, _alarm)
-        signal.setitimer(signal.ITIMER_REAL, CASE_ALARM)
+        # periodic: an alarm that goes off inside a frame that discards exceptions (a `__del__`, a bare
+        # `except:` in a retry loop, a C call-back) is raised again every 10 s until the case is left
+        _CASE_T0[0] = t0
+        signal.setitimer(signal.ITIMER_REAL, 10, 10)
         armed = True
     except Exception:      # not in a main thread / no SIGALRM: fall back to the pool time-out
         pass
@@ -321,7 +339,8 @@ def _do_case(args):
         # a routine that does not terminate on an input the property covers is a failure of the property
         # (reported with this case as the replay), not an infrastructure problem
         r = {"lines": [], "impl": [], "nontrivial": True, "tags": ["did-not-terminate"], "mutated": None,
-             "oracle": f"the routines under test did not terminate within {CASE_ALARM} s on this case"}
+             "oracle": f"the routines under test did not terminate within {CASE_ALARM} s (or grew beyond "
+                       f"{CASE_RSS} MB) on this case"}
     except Exception:  # harness bug or unexpected impl exception not caught by module
         r = {"lines": [], "impl": [], "oracle": None, "nontrivial": False,
              "tags": ["harness-exception"], "mutated": None,
